@@ -553,6 +553,7 @@ func checkC19(c *Ctx) int {
 	run := ev.NewRun("C19", c.Tier, "model_checking")
 	t0 := time.Now()
 	var nreads, ncopies, states, trans, modelReads int64
+	migRuns := c19MigratePrepare(c) // TLC for the migration part works meanwhile
 	workers := 16
 	ws := make([]*dagWorker, workers)
 	for i := range ws {
@@ -593,6 +594,8 @@ func checkC19(c *Ctx) int {
 		do(3, 0, 1000)
 		do(4, 0, 1000)
 	}
+	// store migration (datastore.MigrateInstance / MigrateBatch): c19_migrate.go
+	c19Migrate(c, run, migRuns, &states, &trans, &nreads, &cfgs)
 	run.Set("states", states)
 	run.Set("transitions", trans)
 	run.Set("traces_validated_against_impl", nreads)
@@ -600,9 +603,10 @@ func checkC19(c *Ctx) int {
 	run.Set("copies_made", ncopies)
 	run.Set("source_reads_model_checked", modelReads)
 	run.Set("tlc_model", cfgs)
-	run.Set("rule", "case = (DAG shape, placement of value/tombstone/nothing of a datum over the nodes, copy mode, queried node); TLC (KVCopy.tla over KVShapes/KVRead) enumerates every shape, evaluates KVRead.Read of the source for every placement, checks that a plain copy reads like the source, that a copy flattened at V reads source@V at V and its descendants and nothing elsewhere, and that a deletion issued where the datum is absent changes no read; the harness builds each shape through the HTTP API with six source instances (keyvalue with every placement as its own key, keyvalue with the conflict-free placements, uint8blk blocks, annotation elements read through block and tag index, two roi), calls datastore.CopyInstance plain and with transmit=flatten at every node, onto the same store and onto a second Badger store (store assignment by tag), and reads every source and every copy at every node; thorough: seeded sample of the 5-node shapes and of the keyvalue placements; distinct_nontrivial counts DAG shapes")
+	run.Set("rule", "case = (DAG shape, placement of value/tombstone/nothing of a datum over the nodes, copy mode, queried node); TLC (KVCopy.tla over KVShapes/KVRead) enumerates every shape, evaluates KVRead.Read of the source for every placement, checks that a plain copy reads like the source, that a copy flattened at V reads source@V at V and its descendants and nothing elsewhere, and that a deletion issued where the datum is absent changes no read; the harness builds each shape through the HTTP API with six source instances (keyvalue with every placement as its own key, keyvalue with the conflict-free placements, uint8blk blocks, annotation elements read through block and tag index, two roi), calls datastore.CopyInstance plain and with transmit=flatten at every node, onto the same store and onto a second Badger store (store assignment by tag), and reads every source and every copy at every node; thorough: seeded sample of the 5-node shapes and of the keyvalue placements; distinct_nontrivial counts DAG shapes (copy) and (shape, datatype, migration mode) triples (migration). "+c19MigrateRule)
 	run.Assume = []string{"TLC bounded enumeration of shapes (<= 4 nodes quick, <= 5 thorough, <= 3 parents)", "flattened copies are made only of data without merge conflicts (a conflicting read has no defined copy)",
 		"uint8blk data are written, never deleted (the datatype has no block deletion); uint8blk rewrites its extents entry at every node that writes a block, so a merge of two writing branches is a conflict of that entry and no flattened copy is made there; a roi is key-only, so only presence is compared", "labelmap/labelarray instances (own copy semantics, in-memory indices) are not covered"}
+	run.Assume = append(run.Assume, c19MigrateAssume...)
 	fmt.Printf("C19: %v; %d copies, %d reads compared in %.1fs; violations=%d\n", cfgs, ncopies, nreads, since(t0), run.Violations())
 	return run.Finish()
 }
